@@ -274,6 +274,18 @@ type Req struct {
 	Body    string `json:"body,omitempty"`
 	Chunked bool   `json:"chunked,omitempty"`
 	ReqID   string `json:"req_id,omitempty"`
+	// WantLen > 0: the body length the scripted origin sends for this request. Only used to recognise the
+	// silent form of the body hand-over artefact (see Plain): a body-carrying exchange whose chunked relay
+	// was cut and ended normally is repeated like one that ended in a framing error.
+	WantLen int `json:"-"`
+}
+
+// cut reports whether resp shows the body hand-over artefact for r.
+func (r Req) cut(resp *Resp, err error) bool {
+	if err != nil || resp == nil || !r.hasBody() {
+		return false
+	}
+	return resp.ReadErr != nil || (r.WantLen > 0 && len(resp.Body) < r.WantLen && r.Method != "HEAD" && resp.Status != 304 && resp.Status != 204)
 }
 
 // Resp is what the client got.
@@ -365,10 +377,10 @@ func (r Req) hasBody() bool {
 // busy machine), so a single occurrence says nothing about reservoir; a persistent one does.
 func (e *Env) Plain(r Req) (*Resp, error) {
 	resp, err := e.plainOnce(r)
-	for i := 0; i < 2 && err == nil && resp.ReadErr != nil && r.hasBody(); i++ {
+	for i := 0; i < 2 && r.cut(resp, err); i++ {
 		resp, err = e.plainOnce(r)
 		if resp != nil {
-			resp.Retried++
+			resp.Retried = i + 1
 		}
 	}
 	return resp, err
@@ -465,7 +477,7 @@ func (e *Env) Via(transport string, r Req) (*Resp, error) {
 			}
 			resp, err = t.Do(r)
 			t.Close()
-			if !(err == nil && resp.ReadErr != nil && r.hasBody()) {
+			if !r.cut(resp, err) {
 				break
 			}
 			resp.Retried = i + 1
